@@ -1155,7 +1155,7 @@ def par_oracle(m, ex):
         used = i < ex["n_link"] or p._is_dynamic or p._precompute or bool(p.skip_function)
         if not used:
             continue
-        if p.limits is not None and np.isfinite(v).all():
+        if p.limits is not None and p.limits[0] <= p.limits[1] and np.isfinite(v).all():  # min > max leaves no admissible value: no claim from the direct oracle (clip order is compared through the model)
             if (v < p.limits[0] - 1e-12).any() or (v > p.limits[1] + 1e-12).any():
                 t = int(np.argmax((v < p.limits[0] - 1e-12) | (v > p.limits[1] + 1e-12)))
                 out.append(({"oracle": "limits"}, f"parameter {p.id} = {v[t]!r} at index {t} is outside its limits {p.limits}"))
